@@ -45,7 +45,7 @@ ASSUMPTIONS = ['a workbook written by openpyxl stands for "readable workbook"',
                'structural member failures = SyntaxError, NameError, RecursionError, AttributeError on the generated instance, TypeError '
                'about the number of positional arguments; every other exception of a member is data-dependent and not judged here',
                f'bounded progress: {STEP_BUDGET} PY_START events per translation + {PER_CELL} per cell the translation registers']
-FLOORS = {'quick': {'evaluations': 6000, 'nontrivial': 3000, 'counters': {'translations_under_budget': 4000, 'members_called': 3000, 'file_vs_object': 500}},
+FLOORS = {'quick': {'evaluations': 6000, 'nontrivial': 3000, 'counters': {'translations_under_budget': 4000, 'members_called': 3000, 'file_vs_object': 500, 'two_executor_sessions': 30}},
           'thorough': {'evaluations': 150000, 'nontrivial': 60000, 'counters': {'translations_under_budget': 100000, 'members_called': 60000, 'file_vs_object': 10000}}}
 
 LEX = (list(c05.ARITY) + ['FOO', 'sum', 'If', 'TEXT', 'NOW', 'PI'])
@@ -388,6 +388,28 @@ def whole_book(ctx, bi):
             a_, b_ = (('V', canon(o1.value)) if o1.ok else ('E', o1.exc_name)), (('V', canon(o2.value)) if o2.ok else ('E', o2.exc_name))
             if a_ != b_:
                 report(r, ID, None, c, {'class_object': a_, 'class_file': b_}, 'same behaviour from file and from class object', monitor='file-vs-object')
+    # the same short session against both loadings: a first Executor overrides a cell beyond the sheet bounds, a SECOND Executor on the
+    # same class object / on the same file reports titles, sizes and the grid of the first sheet - both loadings must agree, and the
+    # second Executor must report the workbook's own sizes
+    def session(make):
+        ex1 = make()
+        ex1.set_cells([Cell(0, exp_sizes[0]['last_column'] + 3, exp_sizes[0]['last_row'] + 5, 7)])
+        ex2 = make()
+        sizes = [dict(x) for x in ex2.get_executed_class().get_sheets_size()]
+        try:
+            grid = ex2.get_sheet(0)
+            dims = (len(grid), max([len(row) for row in grid], default=0))
+        except Exception as e:  # noqa: BLE001 - a failing member (data error) fails the whole grid: the sizes are still compared
+            dims = type(e).__name__
+        return sizes, dims
+    s_obj = pipeline.guarded(lambda: session(lambda: pipeline.Executor().set_executed_class(class_object=cls)), 'evaluate')
+    s_file = pipeline.guarded(lambda: session(lambda: pipeline.Executor().set_executed_class(class_file=fpath)), 'evaluate')
+    r.ev()
+    r.count('two_executor_sessions' if s_obj.ok and s_file.ok else 'two_executor_sessions_failed')
+    so, sf = (s_obj.value if s_obj.ok else ('E', s_obj.exc_name)), (s_file.value if s_file.ok else ('E', s_file.exc_name))
+    if so != sf or (s_obj.ok and s_obj.value[0] != exp_sizes):
+        report(r, ID, None, dict(case, what='second executor after an out-of-bounds override by a first one'), {'class_object': so, 'class_file': sf},
+               {'sizes': exp_sizes}, monitor='file-vs-object')
     if bi % 500 == 0:
         r.sample({'titles': titles, 'hostile_constants': [wbspec.enc(v) if not isinstance(v, str) else v[:40] for v in list(planted.values())[:6]]})
 
